@@ -1,6 +1,7 @@
 package main
 
 import (
+	"time"
 	"fmt"
 	"sort"
 
@@ -150,4 +151,27 @@ func genC11Verify(c *Ctx) {
 func init() {
 	register("c11verify", genC11Verify)
 	registerKind("c11.verify", runC11Verify)
+}
+
+// c11.race (child process): many goroutines ask the real raffle for a ticket for the same job id at the same moment,
+// round after round: never more than one ticket per round, and the pools are intact afterwards.
+func runC11Race(c *Ctx, in M) (out interface{}) {
+	h := NewHub(c, true)
+	defer h.Destroy()
+	mg, ok := jobs.VerifRaffleRace(h.Runner, geti(in, "rounds"), geti(in, "n"))
+	return M{"maxGranted": mg, "poolOk": ok}
+}
+
+func genC11Race(c *Ctx) {
+	rounds := 1500
+	if c.Thorough {
+		rounds = 20000
+	}
+	c.DoChild("c11.race", M{"rounds": rounds, "n": 8}, 120*time.Second)
+}
+
+func init() {
+	register("c11race", genC11Race)
+	registerKind("c11.race", runC11Race)
+	childKinds["c11.race"] = true
 }
